@@ -200,6 +200,17 @@ pub fn generate(rng: &mut Rng, thorough: bool) -> Vec<Value> {
             }
         }
     }
+    // slow workers: a notification meets a worker that stays alive for a long time (in every
+    // phase: before it computed, before it responded, before it released its clone)
+    let hold_ms = if thorough { 5000 } else { 1500 };
+    for (k, sched) in [
+        vec!["T", "T", "S0", "C0", "P0", "X0", "R"],
+        vec!["T", "S0", "T", "C0", "P0", "X0", "R"],
+        vec!["T", "S0", "C0", "T", "P0", "X0", "R"],
+        vec!["T", "S0", "C0", "P0", "T", "X0", "R"],
+    ].iter().enumerate() {
+        out.push(json!({"docs": docs(), "msgs": fill("RN", k % 4), "sched": sched, "kind": "slow-worker", "hold_ms": hold_ms}));
+    }
     // random beyond: more messages, other notifications, random walks
     let count = if thorough { 6000 } else { 200 };
     for _ in 0..count {
@@ -286,6 +297,9 @@ pub fn execute(v: &Value) -> String {
     let msgs: Vec<Value> = v["msgs"].as_array().cloned().unwrap_or_default();
     let sched: Vec<String> = v["sched"].as_array().map(|a| a.iter().map(|x| x.as_str().unwrap_or("").to_string()).collect()).unwrap_or_default();
     let id_at = |p: usize| -> i32 { msgs.get(p).and_then(|m| m["id"].as_i64()).unwrap_or(-1) as i32 };
+    // "slow worker" cases: how long the worker a notification met is kept alive before the
+    // schedule goes on (the loop has to wait however long that takes)
+    let hold = Duration::from_millis(v["hold_ms"].as_u64().unwrap_or(0));
 
     let mut srv = Srv::start(&docs, drv::configuration(false), true);
     let mut taken = 0usize;
@@ -310,7 +324,7 @@ pub fn execute(v: &Value) -> String {
                 let meets = !live.is_empty() && m["t"].as_str() != Some("oth");
                 match srv.wait_note_end(if meets { MEET_WAIT } else { STEP_LIMIT }) {
                     Some(panicked) => { if panicked { drops.push(p); } true }
-                    None => { pending_note = Some(p); meets }
+                    None => { pending_note = Some(p); if meets && !hold.is_zero() { std::thread::sleep(hold); } meets }
                 }
             }
         } else if l == "R" {
